@@ -19,7 +19,8 @@ DECIDED = ["D1 panic-site inventory of local code reachable from the untrusted-i
            "D2 recursion (SCC) inventory with bounds", "D3 loop (back-edge) inventory with termination arguments"]
 UNDECIDED = ["panics, aborts, stack use and termination inside dependencies (serde_json, glob, derp, pem, ring, chrono, walkdir, path-clean)",
              "allocation failure"]
-TRUSTED = ["dependencies do not panic on any input and std's Read/Iterator contracts hold"]
+TRUSTED = ["dependencies do not panic on any input and std's Read/Iterator contracts hold",
+           "G7 contracts: Read::read returns n <= buf.len(); ring accepts RSA keys of at most 8192 bits; path_clean::clean of UTF-8 input yields UTF-8"]
 ASSUMPTIONS = ["usize/u64 counters incremented once per consumed element cannot overflow in practice (2^64 steps)"]
 FLOORS = {"C14/D1": 60, "C14/D2": 2, "C14/D3": 20, "C14/scope": 1}
 FLOORS_RELEASE = {"C14/D1": 25, "C14/D2": 2, "C14/D3": 20, "C14/scope": 1}    # no overflow asserts without overflow checks
@@ -289,8 +290,57 @@ def _reach_without(body, start, cut_edges):
     return seen
 
 
+def _read_call_of(body, op):
+    """If op is the Ok payload (possibly cast) of std::io::Read::read: the call terminator."""
+    lv = body.trace(op)
+    if lv and all(l.kind == "call" and callee_name(l.data[1]) == "std::io::Read::read" and l.path == (("v", "Ok"), ("f", "0")) for l in lv) \
+            and len({l.data[0] for l in lv}) == 1:
+        return lv[0].data[1]
+    return None
+
+
+def contract(fx, body, bb, t, kind, descr):
+    """G7: constructs that cannot panic because of a documented contract of a dependency; the shape is recognised, not the place."""
+    n = callee_name(t) if t["k"] == "call" else None
+    if kind == "call" and n == "std::ops::Index::index":
+        rp = _range_parts(body, t["args"][1])
+        if rp and (rp["adt"].endswith("::RangeTo") or (rp["adt"].endswith("::Range") and const_int(body, rp["fields"]["start"]) == 0)):
+            rc = _read_call_of(body, rp["fields"]["end"])
+            if rc is not None and same_root(body, rc["args"][1], t["args"][0]):
+                return ("G7-read", "`buf[..n]` with n returned by Read::read(&mut buf) on the same buffer: std's Read contract guarantees n <= buf.len()")
+    if kind == "assert" and t["msg"] == "overflow" and t.get("binop") == "Add":
+        a, b = t["ops"]
+        aty = body.local_ty(op_place(a)["l"]) if op_place(a) else ""
+        if aty == "u64" and _read_call_of(body, b) is not None:
+            ci = _counter_info(body, a)
+            if ci and all(_const_bounded(body, i[1]) for i in ci["inits"]) and all(s_[1].startswith("Add") for s_ in ci["steps"]):
+                return ("G7-read", "u64 byte counter `size += n`, n returned by Read::read (n <= buffer length): overflow needs 2^64 bytes of input")
+    if kind == "assert" and t["msg"] == "overflow" and t.get("binop") == "Mul":
+        a, b = t["ops"]
+        c = const_int(body, b)
+        lv = body.trace(a)
+        if c is not None and 0 <= c <= 8 and lv and all(l.kind == "call" and callee_name(l.data[1]) == "ring::rsa::PublicKey::modulus_len" for l in lv):
+            return ("G7-ring", "`modulus_len() * %d`: ring only accepts RSA keys of at most 8192 bits, so the product is < 2^16" % c)
+    if kind == "call" and n == "std::result::Result::unwrap":
+        lv = body.trace(t["args"][0], (), lambda tt: callee_name(tt) == "path_clean::clean",
+                        {"std::ffi::OsString::into_string": [((), 0, ())], "std::path::PathBuf::into_os_string": [((), 0, ())]})
+        if lv and all(l.kind == "call" and callee_name(l.data[1]) == "path_clean::clean" and
+                      (l.data[1].get("generics") or ["?"])[0].lstrip("&") in ("str", "std::string::String") for l in lv) \
+                and "Result<std::string::String, std::ffi::OsString>" in (t.get("arg_tys") or [""])[0]:
+            return ("G7-utf8", "PathBuf produced by path_clean::clean from a str/String: its components are substrings of UTF-8 input, "
+                    "so OsString::into_string cannot fail")
+    return None
+
+
 def discharge(fx, body, bb, t, kind, descr, cg=None, fkey=None):
     """Return (code, reason) if the construct cannot panic, else None."""
+    r = _discharge(fx, body, bb, t, kind, descr, cg, fkey)
+    if r is None:
+        r = contract(fx, body, bb, t, kind, descr)
+    return r
+
+
+def _discharge(fx, body, bb, t, kind, descr, cg=None, fkey=None):
     n = callee_name(t) if t["k"] == "call" else None
     # ---------------- explicit panics in match arms that cannot be taken
     if kind in ("panic", "diverge"):
@@ -512,16 +562,6 @@ def _const_bounded(body, o, depth=0):
 
 # Reviewed one-construct suppressions (G5): (function path, construct descriptor) -> reason.
 REVIEWED = {
-    ("crypto::calculate_hashes", "assert overflow Add"):
-        "u64 byte counter `size += n`: n <= buffer length per read; overflow needs 2^64 bytes of input",
-    ("crypto::calculate_hashes", "index on &Vec<u8> by Range<usize>"):
-        "`buf[0..n]` with n returned by Read::read(&mut buf): std's Read contract guarantees n <= buf.len() (dependency contract)",
-    ("crypto::PrivateKey::rsa_from_pkcs8", "assert overflow Mul"):
-        "`modulus_len() * 8`: ring only accepts RSA keys of at most 8192 bits, so the product is < 2^16",
-    ("runlib::dir_entry_to_path", "unwrap on Result<String, OsString>"):
-        "PathBuf produced by path_clean::clean from a String (both arms above build `path: String`): into_string cannot fail for UTF-8 input",
-    ("rulelib::canonicalize_path", "unwrap on Result<String, OsString>"):
-        "PathBuf produced by path_clean::clean from a &str: into_string cannot fail for UTF-8 input",
     ("rulelib::verify_match_rule", "index on &BTreeMap<VirtualTargetPath, HashMap<HashAlgorithm, HashValue>> by &VirtualTargetPath"):
         "queue elements are canonicalised keys of the same link's artifact map, and the (shadowed) map is re-keyed by the same "
         "canonicalisation, falling back to the raw key: every queue element is a key (single private call site in apply_rules_on_link)",
@@ -540,9 +580,26 @@ RECURSION = {
         "one directory level (<step>.<keyid8>/) per recursion; bounded by the path-length limit of the file system",
 }
 
+
+def recursion_entry(fx, comp):
+    """Table entry for a call-graph cycle: the cycle's functions, not counting module-private helpers that live in the module
+    of a listed function (extracting a helper out of a listed function does not change the bound)."""
+    from ..cg import vis_kind
+    paths = frozenset(clean_path(fx.fns[k]["path"]) for k in comp)
+    if paths in RECURSION:
+        return paths
+    for key in RECURSION:
+        if not key <= paths:
+            continue
+        mods = {p.rsplit("::", 1)[0] for p in key}
+        extra = [k for k in comp if clean_path(fx.fns[k]["path"]) not in key]
+        if all((fx.fns[k]["kind"] == "Closure" or vis_kind(fx.fns[k]) == "private") and
+               clean_path(fx.root_of(fx.fns[k])["path"]).rsplit("::", 1)[0] in mods for k in extra):
+            return key
+    return None
+
 # Loops that are not driven by Iterator::next (D3): (function path) -> termination argument
 LOOPS = {
-    "crypto::calculate_hashes": "loop ends when Read::read returns 0 (EOF) or an error; reads make progress on a finite stream",
 }
 
 
@@ -609,8 +666,9 @@ def run(ctx):
         f0 = fx.fns[comp[0]]
         derived = all(fx.fns[k].get("exp") for k in comp)
         key = " <-> ".join(sorted(paths))
-        if paths in RECURSION:
-            ctx.ok("C14/D2", key, "bounded: " + RECURSION[paths], f0["at"])
+        rk = recursion_entry(fx, comp)
+        if rk is not None:
+            ctx.ok("C14/D2", key, "bounded: " + RECURSION[rk], f0["at"])
         elif all(_is_serde_impl(fx.fns[k]) for k in comp):
             ctx.ok("C14/D2", key, "call-graph cycle introduced by the callback over-approximation between serde impl methods of one "
                    "non-recursive type family (data types are not recursive: see type check below)", f0["at"])
@@ -690,4 +748,19 @@ def _loop_driver(body, header):
                 # every back edge must be dominated by this call (no way round the loop without consuming)
                 if all(body.dominates(b, e[0]) for (e, tb) in body.back_edges() if tb == header):
                     return "%s at bb%d" % (short(n), b)
+            if n == "std::io::Read::read" and all(body.dominates(b, e[0]) for (e, tb) in body.back_edges() if tb == header):
+                # a read loop: left when read returns 0 (end of stream); an Err leaves it as well
+                for (e, tb, fa) in body.all_edge_facts():
+                    if e[0] not in loop or tb in loop:
+                        continue
+                    c = as_cmp(fa)
+                    zero = None
+                    if c and c[0] == "Eq":
+                        zero = c[1] if const_int(body, c[2]) == 0 else (c[2] if const_int(body, c[1]) == 0 else None)
+                    elif fa[0] == "int" and fa[2] == 0:
+                        zero = fa[1]
+                    if zero is not None:
+                        rc = _read_call_of(body, zero)
+                        if rc is not None and rc is t:
+                            return "Read::read at bb%d (loop left when it returns 0: reads make progress on a finite stream)" % b
     return None
